@@ -1225,6 +1225,30 @@ func (x *VC) checkTypeInv(a *Addr, v *Val, reach, pos string) {
 
 // ---- loops ------------------------------------------------------------------------------
 
+// rangedSlice finds the slice of `for i, v := range s`: the header compares rangeindex+1 with len(s).
+func rangedSlice(h *ssa.BasicBlock, phi *ssa.Phi) ssa.Value {
+	for _, ins := range h.Instrs {
+		b, ok := ins.(*ssa.BinOp)
+		if !ok || b.Op != token.LSS {
+			continue
+		}
+		inc, ok := b.X.(*ssa.BinOp)
+		if !ok || inc.Op != token.ADD || inc.X != ssa.Value(phi) {
+			continue
+		}
+		c, ok := b.Y.(*ssa.Call)
+		if !ok {
+			continue
+		}
+		if bi, ok := c.Call.Value.(*ssa.Builtin); ok && bi.Name() == "len" && len(c.Call.Args) == 1 {
+			if _, ok := c.Call.Args[0].Type().Underlying().(*types.Slice); ok {
+				return c.Call.Args[0]
+			}
+		}
+	}
+	return nil
+}
+
 func (fr *Frame) loopVars(h *ssa.BasicBlock, st *State) map[string]*Val {
 	vars := map[string]*Val{}
 	for i, p := range fr.fn.Params {
@@ -1256,6 +1280,15 @@ func (fr *Frame) loopVars(h *ssa.BasicBlock, st *State) map[string]*Val {
 			if v, ok := fr.vals[phi]; ok && phi.Comment != "" {
 				vars[phi.Comment] = v
 				vars[fmt.Sprintf("%s$%d", phi.Comment, fr.loopOrd[hb])] = v
+			}
+			if phi.Comment == "rangeindex" {
+				// the slice a `range` loop walks is visible as rangeover / rangeover$k (it may have no source name)
+				if sl := rangedSlice(hb, phi); sl != nil {
+					if v, ok := fr.vals[sl]; ok {
+						vars["rangeover"] = v
+						vars[fmt.Sprintf("rangeover$%d", fr.loopOrd[hb])] = v
+					}
+				}
 			}
 		}
 	}
